@@ -6,6 +6,7 @@
 //   P  sees the same link but never uses FEC (concealment only)
 //   R  sees the unfaulted packet log (loss-free twin)
 // Phase 1 runs the sender and records packets + the fault attached to each; phase 2 plays the log out through L, P and R.
+#include "shim.h"
 #include "session.h"
 
 namespace {
@@ -226,7 +227,7 @@ struct Lossy {
       // (and only where the decoder can be taken to be in step with the encoder: no loss during the previous second, not within the first
       //  second of the stream, the last received packet decoded within -20 dB of the loss-free twin, and speech-like or noise-like material - a SILK decoder whose predictor state differs from the encoder's can
       //  ring up on steady tones and sweeps for hundreds of milliseconds, see DESIGN.md 10.4)
-      bool benign_src = rc.fam == SRC_VOICED || rc.fam == SRC_STEADYVOICED || rc.fam == SRC_NOISE || rc.fam == SRC_SILENCE;
+      bool benign_src = rc.fam == SRC_VOICED || rc.fam == SRC_ONSETS || rc.fam == SRC_STEADYVOICED || rc.fam == SRC_NOISE || rc.fam == SRC_SILENCE;
       if (concealment_only && history_ok && in_step && benign_src && clean_run48 >= 150 * 48 && S.t48 >= 0 && k >= 2 && !log[k - 1].lost) pending.push_back(Pending{k, peak(pl), used_fec, rc.mode, cng_level, peak(recentL)});
       clean_run48 = 0;
       // ---- decay under sustained loss (decay-probe sessions: loud voiced / tonal burst after a quiet lead-in)
@@ -237,6 +238,24 @@ struct Lossy {
         size_t tail = std::min(pl.size(), (size_t)dfs / 50 * dch);
         std::vector<float> t(pl.end() - (long)tail, pl.end());
         decay_last_rms = sqrt(energy(t) / std::max<size_t>(1, t.size())) / preloss_rms;
+      }
+      // ---- FEC level, per SILK frame: where the following packet carries a redundant copy of exactly this 20 ms frame and the frame was
+      // loud, the reconstruction is not near-silence (every flavour; mono streams, isolated losses, same packet duration on both sides)
+      if (used_fec && k + 1 < npk && (k == 0 || !log[k - 1].lost) && log[k + 1].frame48 == rc.frame48 && !pr.empty() && pl.size() == pr.size()) {
+        int mid = 0, side = 0, nf = opsim_silk_lbrr_flags(log[k + 1].pkt.data(), (int)log[k + 1].pkt.size(), &mid, &side);
+        if (nf > 0 && !(log[k + 1].pkt[0] & 4) && !(rc.pkt[0] & 4) && (rc.pkt[0] & 3) == 0 && (rc.pkt[0] >> 3) == (log[k + 1].pkt[0] >> 3) && k >= 1 && (log[k - 1].pkt[0] >> 3) == (rc.pkt[0] >> 3)) {   // same mode, bandwidth and duration before, at and after the loss
+          size_t per = pr.size() / (size_t)nf;
+          for (int f = 0; f < nf; f++) if ((mid >> f) & 1) {
+            double er = 0, ef = 0;
+            for (size_t i = (size_t)f * per; i < (size_t)(f + 1) * per; i++) { er += (double)pr[i] * pr[i]; ef += (double)pl[i] * pl[i]; }
+            er = sqrt(er / per); ef = sqrt(ef / per);
+            if (er < 0.03) continue;
+            run.count("fec_frame_level_checked"); if (f > 0 && !((mid >> (f - 1)) & 1)) run.count("fec_frame_level_checked_first_lbrr_frame_not_first");
+            long milli = (long)(std::max(0.0, 1.0 - ef / er) * 1000); if (run.stat["max:fec_frame_level_deficit_milli"] < milli) run.stat["max:fec_frame_level_deficit_milli"] = milli;
+            if (getenv("OPSIM_CALIB")) fprintf(stderr, "C09FECLVL ratio=%.4f ref=%.4f f=%d nf=%d flags=%d mode=%d fam=%d seed=%llu k=%zu\n", ef / er, er, f, nf, mid, rc.mode, rc.fam, (unsigned long long)cur_seed, k);
+            else if (ef < (flavour == 1 ? LAMBDA_PROBE : LAMBDA) * er) REPORT(run, prop, "fec_frame_with_lbrr_data_near_silent", "packet %zu, SILK frame %d of %d (LBRR flags of the next packet: %d%d%d): loss-free rms %.4f, FEC rms %.4f (x%.3f)", k, f, nf, mid & 1, (mid >> 1) & 1, (mid >> 2) & 1, er, ef, ef / er);
+          }
+        }
       }
       // ---- FEC gain (FEC-probe sessions: isolated losses, LBRR present)
       if (flavour == 1 && used_fec && log[k + 1].lbrr == 1 && (k == 0 || !log[k - 1].lost) && energy(pr) > 0) {
@@ -276,7 +295,7 @@ struct Lossy {
   }
   // calibrated bounds (calib/thresholds.json C09.*)
   static constexpr double KAPPA_NB = 11.0; double KAPPA = 36.0;   // (a regression plan may carry its own, plan-specific bound in the header) 
-  static constexpr double RHO = 0.1, THETA_DB = -20.0;
+  static constexpr double RHO = 0.1, THETA_DB = -20.0; double LAMBDA = 0.03, LAMBDA_PROBE = 0.08;   // (a regression plan may carry its own, sharper bound in the header)
   void finish_recovery(double err, double ref, long samples, bool celt) {
     if (ref <= 0) return;
     double db = 10 * log10(std::max(err / ref, 1e-12));
@@ -293,6 +312,7 @@ struct Lossy {
   void go(const Plan &p) {
     cur_seed = p.seed;
     { auto it = p.hdr.find("kappa"); if (it != p.hdr.end() && atof(it->second.c_str()) > 1) KAPPA = atof(it->second.c_str()); }
+    { auto it = p.hdr.find("lambda"); if (it != p.hdr.end() && atof(it->second.c_str()) > 0) LAMBDA = LAMBDA_PROBE = atof(it->second.c_str()); }
     for (size_t i = 0; i < p.ops.size(); i++) {
       const Op &op = p.ops[i]; run.cur_op = (int)i;
       if (op.k == "ENCNEW") { Op o2 = op; o2.a[0] = K_SINGLE; S.op_encnew(o2, run); }
@@ -374,7 +394,9 @@ Plan gen(uint64_t seed, int tier) {
     p.ops.push_back(mkop("RXPOL", {1, 0, 0}));
     // short speech-like bursts with pauses: the level changes from frame to frame, so a frame reconstructed from real data (LBRR)
     // is told apart from an extrapolation of the previous one by its level, whatever the waveform phase does
-    p.ops.push_back(mkop("SRC", {SRC_VOICED, r.pick({110, 150, 220}), r.pick({300, 500, 900}), r.range(1, 1000), r.pick({120, 160, 200, 300})}));
+    // (or, in a third of the probes, bursts with abrupt onsets after digital silence: the first frame of a packet that carries a redundant
+    //  copy is then often not its first frame)
+    p.ops.push_back(mkop("SRC", {r.chance(0.34) ? SRC_ONSETS : SRC_VOICED, r.pick({110, 150, 220}), r.pick({300, 500, 900}), r.range(1, 1000), r.pick({120, 160, 200, 300})}));
     int fidx = r.pick({3, 3, 4, 5});   // 20 / 40 / 60 ms packets: the redundant copy of every SILK frame of a multi-frame packet must be the right one
     int n = (int)((tier ? 30 : 14) * 1000 / (kFrames48[fidx] / 48)), period = std::max(4, (int)r.pick({170, 230, 290}) / (kFrames48[fidx] / 48));
     for (int i = 0; i < n; i++) { p.ops.push_back(mkop("ENC", {fidx, 1500, 2})); if (i > 10 && i % period == period / 2) p.ops.push_back(mkop("NET", {0})); }
